@@ -123,6 +123,16 @@ F runIntegrate(const std::vector<F> &w, const Spline<F, OA> &a, const Spline<F, 
       a, b);
 }
 
+// the analytic side of C17: the same polynomial weight as an operator, w0 + w1 x + ... + w6 x^6
+template <typename F, size_t OA, size_t OB>
+F runAnalytic(const std::vector<F> &w, const Spline<F, OA> &a, const Spline<F, OB> &b) {
+  using namespace bspline::operators;
+  std::vector<F> v = w;
+  v.resize(7, static_cast<F>(0));
+  const auto W = v[0] * IdentityOperator{} + v[1] * X<1>{} + v[2] * X<2>{} + v[3] * X<3>{} + v[4] * X<4>{} + v[5] * X<5>{} + v[6] * X<6>{};
+  return bspline::integration::BilinearForm{W}.evaluate(a, b);
+}
+
 void fpInt(const json &in, json &out) {
   dropHints(out);
   const bool foreign = in.at("op") == "FpIntX";   // b lives on its own, logically different grid
@@ -156,6 +166,8 @@ void fpInt(const json &in, json &out) {
           }
           if (foreign) return;  // reaching this point is the failure: the call should have thrown
           const Q S = ratQ(in.at("S"));
+          // "equals the analytic bilinear form with f as operator": both sides against the exact weighted integral
+          acc.cmp(runAnalytic<F, oa, ob>(w, a, b), ratQ(in.at("E")), S, "bf");
           if (exact) {
             acc.cmp(v, ratQ(in.at("E")), S, "int");
           } else {
@@ -281,8 +293,11 @@ void fpInterp(const json &in, json &out) {
   forTypes(out, [&](auto tag, FpAcc &acc) {
     using F = decltype(tag);
     const Grid<F> g = mkGrid<F>(jx.at("g"));
-    const Support<F> x = mkSupport<F>(jx, g);
-    const std::vector<F> y = decVec<F>(in.at("y"));
+    // named, non-const operands; compared with untouched copies after the call (C14)
+    Support<F> x = mkSupport<F>(jx, g);
+    std::vector<F> y = decVec<F>(in.at("y"));
+    const Support<F> x0 = x;
+    const std::vector<F> y0 = y;
     withOrder(in.at("order").get<size_t>(), [&](auto O) {
       constexpr size_t o = decltype(O)::value;
       if constexpr (o >= 1 && o <= 4) {
@@ -291,8 +306,16 @@ void fpInterp(const json &in, json &out) {
         for (size_t i = 0; i < o - 1; i++)
           bcs[i] = Boundary<F>{jb.at(i).at("node").get<int>() == 0 ? Node::FIRST : Node::LAST, jb.at(i).at("d").get<size_t>(),
                                Codec<F>::dec(jb.at(i).at("v"))};
+        const auto bcs0 = bcs;
         const auto r = dflt ? interpolateUsingEigen<F, o>(x, y) : interpolateUsingEigen<F, o>(x, y, bcs);
         interpResidual(acc, in, r);
+        bool same = x.getStartIndex() == x0.getStartIndex() && x.getEndIndex() == x0.getEndIndex() && x.getGrid() == g && y == y0;
+        for (size_t i = 0; i < bcs.size(); i++)
+          same = same && bcs[i].node == bcs0[i].node && bcs[i].derivative == bcs0[i].derivative && bcs[i].value == bcs0[i].value;
+        if (!same) {
+          acc.ok = false;
+          acc.where = "operand changed by the call";
+        }
       }
     });
   });
@@ -309,13 +332,32 @@ F decSpecial(const json &t) {
     default: return static_cast<F>(t.at(1).get<long long>()) / static_cast<F>(t.at(2).get<long long>());
   }
 }
+// projection of a point of a live grid back into the [tag, n, d] form (inputs are small integers)
+template <typename F>
+json encSpecial(const F &v) {
+  if (v != v) return json::array({1, 0, 1});
+  if (v == std::numeric_limits<F>::infinity()) return json::array({2, 0, 1});
+  if (v == -std::numeric_limits<F>::infinity()) return json::array({3, 0, 1});
+  if (v == 0 && std::signbit(v)) return json::array({4, 0, 1});
+  const long long n = static_cast<long long>(v);
+  if (static_cast<F>(n) != v || n > 1000 || n < -1000) {
+    bigFlag() = true;
+    return json::array({0, 0, 1});
+  }
+  return json::array({0, n, 1});
+}
 template <typename F>
 void gridSpecialT(const json &in, json &out, const std::string &key) {
   std::vector<F> pts;
   for (const auto &t : in.at("pts")) pts.push_back(decSpecial<F>(t));
+  out[key + "_live"] = json::array();
   guarded(out, key, [&] {
     const Grid<F> g(pts);
     out[key + "_size"] = g.size();
+    // the live object as its accessors show it (C10)
+    json live = json::array();
+    for (size_t i = 0; i < g.size(); i++) live.push_back(encSpecial<F>(g[i]));
+    out[key + "_live"] = std::move(live);
   });
 }
 void fpGridNew(const json &in, json &out) {
